@@ -261,6 +261,53 @@ func split2(s string) (string, string, bool) {
 	return s[:i], s[i+2:], true
 }
 
+// evalInt evaluates a constant integer expression as the compiler prints it:
+// space-separated tokens over integers, + * and parentheses.
+func evalInt(s string) (int, bool) {
+	toks := strings.Fields(s)
+	pos := 0
+	var expr func() (int, bool)
+	atom := func() (int, bool) {
+		if pos >= len(toks) {
+			return 0, false
+		}
+		t := toks[pos]
+		pos++
+		if t == "(" {
+			v, ok := expr()
+			if !ok || pos >= len(toks) || toks[pos] != ")" {
+				return 0, false
+			}
+			pos++
+			return v, true
+		}
+		n, err := strconv.ParseInt(t, 0, 64)
+		return int(n), err == nil
+	}
+	term := func() (int, bool) {
+		v, ok := atom()
+		for ok && pos < len(toks) && toks[pos] == "*" {
+			pos++
+			var w int
+			w, ok = atom()
+			v *= w
+		}
+		return v, ok
+	}
+	expr = func() (int, bool) {
+		v, ok := term()
+		for ok && pos < len(toks) && toks[pos] == "+" {
+			pos++
+			var w int
+			w, ok = term()
+			v += w
+		}
+		return v, ok
+	}
+	v, ok := expr()
+	return v, ok && pos == len(toks)
+}
+
 func parseIns(t string) Ins {
 	word, rest := t, ""
 	if i := strings.IndexAny(t, " \t"); i >= 0 {
@@ -284,11 +331,11 @@ func parseIns(t string) Ins {
 		if !ok || a == "" {
 			return bad
 		}
-		n, err := strconv.ParseInt(b, 0, 64)
-		if err != nil {
+		n, ok := evalInt(b)
+		if !ok {
 			return bad
 		}
-		return Ins{Op: OpCmp, Name: a, Const: int(n), Strict: word == "compare_var_to_value"}
+		return Ins{Op: OpCmp, Name: a, Const: n, Strict: word == "compare_var_to_value"}
 	case "goto_if_eq", "goto_if_ne", "goto_if_lt", "goto_if_le", "goto_if_gt", "goto_if_ge":
 		if rest == "" || strings.ContainsAny(rest, " ,") {
 			return bad
@@ -321,11 +368,11 @@ func parseIns(t string) Ins {
 		if !ok || b == "" {
 			return bad
 		}
-		n, err := strconv.ParseInt(a, 0, 64)
-		if err != nil {
+		n, ok := evalInt(a)
+		if !ok {
 			return bad
 		}
-		return Ins{Op: OpCase, Const: int(n), Target: b}
+		return Ins{Op: OpCase, Const: n, Target: b}
 	case "return":
 		if rest == "" {
 			return Ins{Op: OpReturn}
